@@ -11,7 +11,7 @@ A history is the list `us` of all `Union(p, q)` calls made so far, arguments exa
                         chain of earlier unions"); pairs with an invalid argument contribute nothing;
 * `IsClassCount n us k` — the relation `Conn n us` has exactly `k` classes on `[0, n)`: a duplicate-free
                         list of `k` pairwise unrelated representatives such that every valid element is
-                        related to one of them (`IsClassCount.unique`, in `Proofs/C17.lean`: `k` is
+                        related to one of them (`IsClassCount.unique`, in `Proofs/C17Spec.lean`: `k` is
                         determined);
 * `numMerges n us`   — the number of unions of the history that joined two different classes
                         ("effective merges").
@@ -48,6 +48,24 @@ noncomputable def mergesAfter (n : Nat) : List (Int × Int) → List (Int × Int
 
 /-- number of `Union` calls of the history that joined two different classes -/
 noncomputable def numMerges (n : Nat) (us : List (Int × Int)) : Nat := mergesAfter n [] us
+
+/-- What C17 demands of the three query results of a union-find structure over `n` elements whose
+history of `Union` calls is `us` (each query is a modelled Go call: it must return, `.ok`, and …):
+
+* `IsConnected(p, q)` is true exactly when `p`, `q` are linked by a chain of earlier unions;
+* `Find` of a valid element returns `(r, true)` with `r` in the element's own class, and two valid
+  elements get the same representative iff they are connected;
+* `Find` of an out-of-range element is `(-1, false)`;
+* `Count` is the number of classes, which is `n` minus the number of effective merges. -/
+structure Tracks (n : Nat) (us : List (Int × Int)) (find : Int → Outcome (Int × Bool))
+    (isConnected : Int → Int → Outcome Bool) (count : Int) : Prop where
+  connected_iff : ∀ p q, ∃ b, isConnected p q = .ok b ∧ (b = true ↔ Conn n us p q)
+  find_valid : ∀ p, Valid n p → ∃ r, find p = .ok (r, true) ∧ Conn n us p r
+  find_same_iff : ∀ p q rp rq bp bq, Valid n p → Valid n q → find p = .ok (rp, bp) → find q = .ok (rq, bq) →
+    (rp = rq ↔ Conn n us p q)
+  find_invalid : ∀ p, ¬ Valid n p → find p = .ok (-1, false)
+  count_classes : 0 ≤ count ∧ IsClassCount n us count.toNat
+  count_merges : count = n - numMerges n us
 
 /-! ## executable form -/
 
